@@ -207,7 +207,7 @@ def fixed_text(fixed):
     return ",".join(map(str, fixed)) if fixed else "-"
 
 
-def gen_history(rng, cfg, length, weights=None, equal_sizes=False, allocs=(1,), multi=False, max_count=9, faults=False):
+def gen_history(rng, cfg, length, weights=None, equal_sizes=False, allocs=(1,), multi=False, max_count=9, faults=False, defaults=False):
     """one operation sequence on up to three vectors"""
     w = {"emplace": 10, "pop": 2, "erase": 3, "eraser": 2, "clear": 1, "reserve": 2, "dump": 0,
          "copy": 0, "move": 0, "copyassign": 0, "moveassign": 0, "swap": 0, "destroy": 0, "new": 0}
@@ -221,6 +221,12 @@ def gen_history(rng, cfg, length, weights=None, equal_sizes=False, allocs=(1,), 
 
     def new_vec(k):
         nonlocal same
+        if defaults and any(p[0] == "p" for p in cfg.params) and rng.random() < 0.25:
+            # default-constructed: capacity 0, no block, every fixed size 0
+            lines.append("newdef v%d" % k)
+            specs[k] = Spec(0, 0, [0] * cfg.nfixed())
+            specs[k].alloc = 0
+            return
         fixed = [rng.choice([0, 1, 2, 3, 5]) for _ in range(cfg.nfixed())]
         if not any(p[0] == "p" for p in cfg.params) and sum(fixed) == 0:
             fixed[0] = 1  # zero-sized elements hold no object; the model excludes them (DESIGN.md §8)
